@@ -69,10 +69,11 @@ def parseCons (s : String) : Cons :=
   let has (c : Char) := s.toList.contains c
   ⟨has 'd', has 'f', has 'r', has 'c', has 'l'⟩
 
-def parseItem (s : String) : Option ItemView :=
+def parseItem (bundles : List Bundle) (s : String) : Option ItemView :=
   match s.splitOn "|" with
   | [key, tag, pend, cons, recv, edst, se, sp, sd] => do
-    some { key := ← parseKey key, tag := ← tag.toNat?, pending := pend == "1", cons := parseCons cons,
+    let t ← tag.toNat?
+    some { key := ← parseKey key, bundle := ← bundles.find? (·.tag == t), pending := pend == "1", cons := parseCons cons,
            receiver := ← parseOptEid recv, epiDst := ← parseOptEid edst,
            sentE := ← parseEids se, sentP := ← parseEids sp, sentD := ← parseEids sd }
   | _ => none
@@ -82,11 +83,14 @@ def parseMeta (s : String) : Option (Key × SprayMeta) :=
   | [key, copies, sent] => do some (← parseKey key, ⟨← parseEids sent, ← copies.toNat?⟩)
   | _ => none
 
-def parseLog (s : String) : Option (List Output) :=
+def parseLog (bundles : List Bundle) (peers : List Peer) (s : String) : Option (List Output) :=
   if s == "-" then some [] else
   (s.splitOn ",").mapM fun e =>
     match e.splitOn "." with
-    | [a, t, ok] => do some (Output.sent (← a.toNat?) (← t.toNat?) (ok == "1"))
+    | [a, t, ok] => do
+      let a ← a.toNat?
+      let t ← t.toNat?
+      some (Output.sent (← peers.find? (·.addr == a)) (← bundles.find? (·.tag == t)) (ok == "1"))
     | _ => none
 
 structure Hist where
@@ -137,6 +141,7 @@ structure Variant where
   seqFirst : Bool
   expiryNow : Bool
   dtlsrFail : Bool
+  holdFix : Bool
 
 def parseHist (v : Variant) (line : String) : Option Hist := do
   let fs := fields line
@@ -166,7 +171,7 @@ def parseHist (v : Variant) (line : String) : Option Hist := do
   let evS ← kv fs "ev"
   let cfg : Cfg := { self := self, algo := algo, mule := mule, sensorNodes := sensors, sprayL := l,
                      bcast := ⟨999, 0⟩, seqFirst := v.seqFirst, expiryNow := v.expiryNow,
-                     dtlsrFail := v.dtlsrFail }
+                     dtlsrFail := v.dtlsrFail, holdFix := v.holdFix }
   let mut obs : List Obs := []
   let mut panicAt : Option Nat := none
   let mut i := 0
@@ -178,8 +183,8 @@ def parseHist (v : Variant) (line : String) : Option Hist := do
         panicAt := some i
         obs := obs ++ [{ ev := ev, outs := [], view := ⟨[], []⟩ }]
       else
-        let outs ← parseLog log
-        let items ← (if items == "-" then some [] else (items.splitOn ",").mapM parseItem)
+        let outs ← parseLog bundles peers log
+        let items ← (if items == "-" then some [] else (items.splitOn ",").mapM (parseItem bundles))
         let spray ← (if spray == "-" then some [] else (spray.splitOn ",").mapM parseMeta)
         obs := obs ++ [{ ev := ev, outs := outs, view := ⟨items, spray⟩ }]
     | _ => none
@@ -196,8 +201,12 @@ def keyLe (a b : Key) : Bool :=
 
 def sortEids (l : List Eid) : List Eid := l.mergeSort eidLe
 
+/-- Canonical form of an item for the comparison: sorted lists; of the stored bundle only the tag counts
+(the model's copy may carry the sequence number assigned in memory). -/
 def normItem (i : ItemView) : ItemView :=
-  { i with sentE := sortEids i.sentE, sentP := sortEids i.sentP, sentD := sortEids i.sentD }
+  { i with sentE := sortEids i.sentE, sentP := sortEids i.sentP, sentD := sortEids i.sentD,
+           bundle := { tag := i.bundle.tag, src := ⟨0, 0⟩, ts := 0, seq := 0, dst := ⟨0, 0⟩, prev := none,
+                       lifetime := 0, hop := none, age := none, delBlock := false, bsCopies := none } }
 
 def normView (v : View) : View :=
   { items := (v.items.map normItem).mergeSort (fun a b => keyLe a.key b.key)
@@ -205,13 +214,13 @@ def normView (v : View) : View :=
       (fun a b => keyLe a.1 b.1) }
 
 def outKey : Output → Nat × Nat × Nat
-  | .sent a t ok => (t, a, if ok then 1 else 0)
+  | .sent p b ok => (b.tag, p.addr, if ok then 1 else 0)
   | .deleted _ => (0, 0, 2)
 
-def normOuts (l : List Output) : List Output :=
-  (l.filter (fun o => match o with | .sent .. => true | _ => false)).mergeSort
-    (fun a b => let x := outKey a; let y := outKey b
-      x.1 < y.1 || (x.1 == y.1 && (x.2.1 < y.2.1 || (x.2.1 == y.2.1 && x.2.2 ≤ y.2.2))))
+/-- Canonical form of the sends of one event: (tag, CLA address, outcome), sorted. -/
+def normOuts (l : List Output) : List (Nat × Nat × Nat) :=
+  ((l.filter (fun o => match o with | .sent .. => true | _ => false)).map outKey).mergeSort
+    (fun x y => x.1 < y.1 || (x.1 == y.1 && (x.2.1 < y.2.1 || (x.2.1 == y.2.1 && x.2.2 ≤ y.2.2))))
 
 /-! ## rendering (for `diff` details) -/
 
@@ -226,16 +235,13 @@ def showOptEid : Option Eid → String
   | some e => showEid e
   | none => "-"
 def showItem (i : ItemView) : String :=
-  s!"{showKey i.key}|{i.tag}|{if i.pending then 1 else 0}|{showCons i.cons}|{showOptEid i.receiver}|{showOptEid i.epiDst}|{showEids i.sentE}|{showEids i.sentP}|{showEids i.sentD}"
+  s!"{showKey i.key}|{i.bundle.tag}|{if i.pending then 1 else 0}|{showCons i.cons}|{showOptEid i.receiver}|{showOptEid i.epiDst}|{showEids i.sentE}|{showEids i.sentP}|{showEids i.sentD}"
 def showView (v : View) : String :=
   (if v.items.isEmpty then "-" else ",".intercalate (v.items.map showItem)) ++ "~" ++
   (if v.spray.isEmpty then "-" else
     ",".intercalate (v.spray.map fun km => s!"{showKey km.1}|{km.2.copies}|{showEids km.2.sent}"))
-def showOuts (l : List Output) : String :=
-  if l.isEmpty then "-" else ",".intercalate (l.map fun o =>
-    match o with
-    | .sent a t ok => s!"{a}.{t}.{if ok then 1 else 0}"
-    | .deleted k => s!"del:{showKey k}")
+def showOuts (l : List (Nat × Nat × Nat)) : String :=
+  if l.isEmpty then "-" else ",".intercalate (l.map fun o => s!"{o.2.1}.{o.1}.{o.2.2}")
 def showEvent : Event → String
   | .submit b => s!"S{b.tag}"
   | .receive b r => s!"R{b.tag}" ++ (match r with | some e => "@" ++ showEid e | none => "")
@@ -256,15 +262,11 @@ def envOf (h : Hist) : Env :=
       match h.obs[evNo]? with
       | some o => o.outs.filterMap fun out =>
           match out with
-          | .sent a t _ =>
-            match h.bundle t with
-            | some b => if b.src == k.src && b.ts == k.ts then some a else none
-            | none => none
+          | .sent p b _ => if b.src == k.src && b.ts == k.ts then some p.addr else none
           | _ => none
       | none => []
     cand := fun e b => h.cand.contains (e, b.dst) }
 
-def ctxOf (h : Hist) : Ctx := { cfg := h.cfg, bundles := h.bundles, peers := h.peers }
 
 /-- Replay on the model; `none` = agreement, `some detail` = first disagreement. -/
 def replay (h : Hist) : Option String :=
@@ -286,14 +288,14 @@ def replay (h : Hist) : Option String :=
   go (init h.cfg h.now) 0 h.obs
 
 /-- Judge one line with the given Spec clause set. -/
-def judge (v : Variant) (spec : Ctx → SpecSt → Obs → Option String) (line : String) : String :=
+def judge (v : Variant) (spec : Cfg → SpecSt → Obs → Option String) (line : String) : String :=
   match parseHist v line with
   | none => "skip parse"
   | some h =>
     match h.panicAt with
     | some i => s!"specfail panic-in-event ev={i}"
     | none =>
-      match firstFail spec (ctxOf h) (SpecSt.init h.now) 0 h.obs with
+      match firstFail spec h.cfg (SpecSt.init h.now) 0 h.obs with
       | some (i, cls) =>
         let ev := match h.obs[i]? with | some o => showEvent o.ev | none => "?"
         s!"specfail {cls} ev={i}:{ev}"
